@@ -453,3 +453,6 @@ def campaign(ctx):
             ctx.sample("built", case)
         ctx.fail_all(r["fails"], case)
     ctx.run_given(case_strategy(ctx.thorough), body, max_examples=ctx.n(1500, 12000))
+    from .. import core as _core
+    import sys as _sys
+    _core.fuzz_tier_hyp(ctx, _sys.modules[__name__])
